@@ -121,6 +121,10 @@ pub trait Engine: Sync {
     }
     /// Default number of runs per tier.
     fn default_runs(&self, property: &str, tier: Tier) -> u64;
+    /// Extra key/value pairs for the evidence file's coverage object (engine specific facts).
+    fn extra_evidence(&self, _property: &str) -> Vec<(String, Json)> {
+        Vec::new()
+    }
     /// Total number of abstract transitions considered possible (0 = unknown), for reporting.
     fn abstract_transitions_possible(&self, _property: &str) -> u64 {
         0
@@ -695,6 +699,9 @@ pub fn cmd_check<E: Engine>(engine: &E, opts: &Options) -> i32 {
             );
         for (k, v) in &opts.extra_coverage {
             coverage.put(k, v.clone());
+        }
+        for (k, v) in engine.extra_evidence(&opts.property) {
+            coverage.put(&k, v);
         }
         let mut assumptions: Vec<Json> = vec![
             Json::from("seeded search: a clean batch is evidence, not proof"),
